@@ -49,6 +49,7 @@ type auditRecord struct {
 	IsErr      bool     `json:"is_err"`
 	AllowSub   []string `json:"allow_sub"`   // subtrees the call may touch
 	AllowExact []string `json:"allow_exact"` // single paths the call may touch (not what is below them)
+	AllowStat  []string `json:"allow_stat"`  // single paths the call may stat only
 	Scope      string   `json:"scope"`       // the child's work dir: everything in it that is not allowed is outside
 	Sandbox    string   `json:"sandbox"`
 }
@@ -79,7 +80,7 @@ func maybeAuditChild(c *vlib.Ctx, work string) bool {
 			break
 		}
 		recs = append(recs, auditRecord{Idx: i, Name: res.name, Target: res.target, Escaping: res.escaping, Err: res.err, IsErr: res.isErr,
-			AllowSub: res.allowSub, AllowExact: res.allowExact, Scope: work, Sandbox: res.sandbox})
+			AllowSub: res.allowSub, AllowExact: res.allowExact, AllowStat: res.allowStat, Scope: work, Sandbox: res.sandbox})
 	}
 	auditIdx = -1
 	out, _ := json.Marshal(recs)
@@ -177,6 +178,11 @@ func judge(rec auditRecord, accs []access) []access {
 		}
 		for _, e := range rec.AllowExact {
 			ok = ok || a.path == e
+		}
+		if a.call == "newfstatat" || a.call == "stat" || a.call == "lstat" || a.call == "statx" || a.call == "fstatat64" {
+			for _, e := range rec.AllowStat {
+				ok = ok || a.path == e
+			}
 		}
 		if ok {
 			continue
